@@ -4,6 +4,8 @@ Shape S (small-scope enumeration, deviation-bounded).  Every input of the famili
 given to the real tools, ONE PROCESS PER INPUT (parser state is global; a crash must be
 attributed to exactly one input):
 
+  pragma      every sequence of <= 3 lines (and every push/pop-balanced one of 4) over the push_macro /
+              pop_macro / define / undef / use / malformed-pragma line alphabet       (source file)
   bytes       every string of length <= n over the scanners' byte alphabet        (source file)
   tokens      every sequence of <= m tokens over the parser's token alphabet       (source file)
   directives  every sequence of <= k lines over the directive/macro line alphabet  (source file)
@@ -474,6 +476,13 @@ def fam_cycle():
             yield ("cycle", lab, "defsrc", dopt + b"\0" + src)
 
 
+def fam_pragma(lo, full, balanced):
+    """pragma sequences of >= lo lines: all up to `full` lines, the push/pop-balanced ones up to `balanced`"""
+    for n, lab, src in G.pragma_seqs(full, balanced):
+        if n >= lo:
+            yield ("pragma", lab, "src", src)
+
+
 def fam_def():
     for lab, d in G.defines():
         if b"\0" not in d:
@@ -506,6 +515,9 @@ def main():
         ok &= F("if-expr", fam_if(G.VALUES_Q), modes=("I", "E"))
         ok &= F("directives:k<=1", fam_dlines(0, 1), modes=("I", "E"))
         ok &= F("cycle", fam_cycle(), modes=("I", "I2", "P", "E"), adaptive=False)
+        ok &= F("pragma:k<=2", fam_pragma(0, 2, 2), modes=("I", "P", "E"), adaptive=False)
+        ok &= F("pragma:k<=4", fam_pragma(3, 3, 4), modes=("I", "P", "E") if thorough else ("I", "E"),
+                adaptive=False)
         ok &= F("cmdfile", fam_cmd(), modes=("I",), adaptive=False)
         ok &= F("cmdfile:bytes", fam_bytes(G.A39, 0, 2, kind="cmd", fam="cmdfile"), modes=("I",), adaptive=False)
         ok &= F("define", fam_def(), modes=("I", "P", "E"), adaptive=False)
@@ -527,8 +539,9 @@ def main():
         complete = quick_space(basan)
         bounds = ("bytes n<=2 over 39 symbols, n=3 over 32; tokens m<=2 over 47, m=3 over 30; directive "
                   "lines k<=2 over %d; single token edits of 14 files, single byte edits of 4 files; "
-                  "#if operators over 6 values; %d macro-cycle shapes x %d use contexts; .N and -D alphabets; "
-                  "include" % (len(G.DLINES), len(G.cycle_shapes()), len(G.CYCLE_CONTEXTS)))
+                  "#if operators over 6 values; %d macro-cycle shapes x %d use contexts; pragma lines k<=3 "
+                  "(balanced k=4) over %d; .N and -D alphabets; include"
+                  % (len(G.DLINES), len(G.cycle_shapes()), len(G.CYCLE_CONTEXTS), len(G.PRAGMA_LINES)))
     else:
         brel = builds["rel"]
         F = lambda *a, **k: ex.family(brel, *a, flag_rel=True, **k)
